@@ -236,12 +236,60 @@ fn replay(args: &[String]) -> i32 {
     }
 }
 
+/// small self-contained workloads for the sanitizer lanes (Miri, ASan, TSan): no file I/O, results
+/// on stdout; every API result is still checked by the C05 / C18 monitors
+fn lane(args: &[String]) -> i32 {
+    let kind = arg(args, "--kind").unwrap_or_else(|| "mem".to_string());
+    let n: usize = arg(args, "--n").and_then(|s| s.parse().ok()).unwrap_or(10);
+    let seed: u64 = arg(args, "--seed").and_then(|s| s.parse().ok()).unwrap_or(1);
+    engine::install_panic_hook();
+    let mut obs = Obs::new();
+    let mut violations = vec![];
+    let mut cases = 0u64;
+    if kind == "mem" {
+        let mon = props::monitor("C05").unwrap();
+        let mut rng = gen::Rng::derive(seed, &[0x1a4e]);
+        for k in 0..n {
+            let (p, _) = props::hostileprops::gen_hostile(&mut rng, 6);
+            let inp = props::hostileprops::hostile_input(&mut rng, &p);
+            let mut c = Case::raw(&p, ["", "i", "m", "x", "q", "s"][k % 6], &inp);
+            c.aux = Some("lane".to_string());
+            cases += 1;
+            if let Outcome::Violated(f) = mon.check(&c, &mut obs) {
+                violations.push(J::obj().with("case", c.to_json()).with("kind", J::s(&f[0].kind)).with("observed", J::s(&f[0].observed)));
+            }
+        }
+    } else {
+        let mon = props::monitor("C18").unwrap();
+        for k in 0..n {
+            let mut c = Case::raw("", "", "");
+            c.aux = Some(format!("{}:{}:{}{}", seed * 1000 + k as u64, 2 + k % 3, 6 + k % 5, if k == 0 { ":init" } else { "" }));
+            cases += 1;
+            if let Outcome::Violated(f) = mon.check(&c, &mut obs) {
+                violations.push(J::obj().with("case", c.to_json()).with("kind", J::s(&f[0].kind)).with("observed", J::s(&f[0].observed)));
+            }
+        }
+    }
+    let mut counters = J::obj();
+    for (k, v) in &obs.counters {
+        counters.set(k, J::u(*v));
+    }
+    let out = J::obj().with("lane", J::s(&kind)).with("seed", J::u(seed)).with("cases", J::u(cases)).with("engine_calls", J::u(engine::TOTAL_CALLS.with(|c| c.get()))).with("counters", counters).with("violations", J::Arr(violations.clone()));
+    println!("LANE-RESULT {}", out.to_string());
+    if violations.is_empty() {
+        0
+    } else {
+        1
+    }
+}
+
 fn main() {
     let args: Vec<String> = std::env::args().collect();
     let code = match args.get(1).map(|s| s.as_str()) {
         Some("run") => run(&args),
         Some("replay") => replay(&args),
         Some("selftest") => selftest::main(&args),
+        Some("lane") => lane(&args),
         _ => {
             eprintln!("usage: rxv run|replay|selftest ...");
             2
